@@ -467,12 +467,32 @@ Definition entry_ok (L : lex) (s : schema) (ids sofa_ids : list xid) (e : entry)
 
 Definition sofa_keys : list string :=
   [K_ID; K_TYPE; "sofaNum"; "sofaID"; "mimeType"; "@sofaArray"; "sofaString"; "sofaURI"].
-Definition view_ok (ids : list xid) (sofas : list csofa) (kv : string * json) : bool :=
+(* a member that has a `sofa` feature is indexed in the view of that sofa (View.add re-points the feature otherwise) *)
+Definition member_sofa_ok (s : schema) (fes : list entry) (sid : xid) (i : xid) : bool :=
+  match find (fun e => Z.eqb (fst e) i) fes with
+  | None => false
+  | Some e =>
+    match e_type e with
+    | None => false
+    | Some t0 =>
+      if is_array_name (norm_tname t0) then true else
+      match sch_find s (norm_tname t0) with
+      | None => false
+      | Some ti => match xfind (ti_feats ti) "sofa" with
+                   | None => true
+                   | Some _ => match alookup (refkey "sofa") (snd e) with Some (JInt x) => Z.eqb x sid | _ => false end
+                   end
+      end
+    end
+  end.
+Definition view_ok (s : schema) (fes : list entry) (sofas : list csofa) (kv : string * json) : bool :=
+  let ids := map fst fes in
   match jget K_SOFA (snd kv), jget K_MEMBERS (snd kv) with
   | Some (JInt sid), Some (JArr l) =>
       existsb (fun cs => Z.eqb (cs_id cs) sid && String.eqb (cs_name cs) (fst kv)) sofas
       && forallb (ref_ok ids) l && forallb (fun j => match j with JInt _ => true | _ => false end) l
       && znodup (flat_map (fun j => match j with JInt i => [i] | _ => [] end) l)
+      && forallb (member_sofa_ok s fes sid) (flat_map (fun j => match j with JInt i => [i] | _ => [] end) l)
   | _, _ => false
   end.
 
@@ -485,7 +505,7 @@ Definition doc_ok_json (L : lex) (s : schema) (d : json) : bool :=
     let sofa_ids := map fst ses in
     match mapM (den_sofa L views) ses with
     | Ok sofas =>
-      znodup (map fst es) && snodup (map fst views)
+      znodup (map fst es) && forallb (fun i => 0 <? i) (map fst es) && snodup (map fst views)
       && snodup (map cs_name sofas) && znodup (map cs_num sofas)
       && forallb (fun e => snodup (map fst (snd e)) && forallb (fun kv => memb (fst kv) sofa_keys) (snd e)) ses
       && forallb (fun cs => match cs_arr cs with
@@ -493,7 +513,7 @@ Definition doc_ok_json (L : lex) (s : schema) (d : json) : bool :=
                                                           match e_type e with Some t => String.eqb t T_BYTE_ARRAY | None => false end) fes
                             | None => true end) sofas
       && forallb (fun cs => match alookup (cs_name cs) views with Some _ => true | None => false end) sofas
-      && forallb (view_ok ids sofas) views
+      && forallb (view_ok s fes sofas) views
       && forallb (entry_ok L s ids sofa_ids) fes
     | _ => false
     end
